@@ -2,22 +2,24 @@
 """Applies a seeded change to /repo, runs the named checks (quick tier), restores /repo.
 usage: run_seeded.py <patch.diff> <PROP> [<PROP>...]   (prints one line per check)"""
 import subprocess, sys, os, time
+REPO = os.environ.get("CVH_REPO", "/repo")
+VERIF = os.path.dirname(os.path.dirname(os.path.abspath(__file__)))
 patch = os.path.abspath(sys.argv[1])
 props = sys.argv[2:]
 def sh(*a, **k):
     return subprocess.run(*a, **k)
-st = sh(["git", "-C", "/repo", "status", "--porcelain", "--untracked-files=no"], capture_output=True, text=True).stdout.strip()
+st = sh(["git", "-C", REPO, "status", "--porcelain", "--untracked-files=no"], capture_output=True, text=True).stdout.strip()
 if st:
-    print("refusing: /repo has local modifications:\n" + st); sys.exit(2)
-r = sh(["git", "-C", "/repo", "apply", patch], capture_output=True, text=True)
+    print("refusing: the repository has local modifications:\n" + st); sys.exit(2)
+r = sh(["git", "-C", REPO, "apply", patch], capture_output=True, text=True)
 if r.returncode != 0:
     print("patch does not apply:", r.stderr); sys.exit(2)
 try:
     for p in props:
         t = time.time()
-        r = sh(["/verif/check", p, "quick"], capture_output=True, text=True, cwd="/verif")
+        r = sh([os.path.join(VERIF, "check"), p, "quick"], capture_output=True, text=True, cwd=VERIF)
         first = next((l for l in r.stdout.splitlines() if l.startswith("VIOLATION")), "")
         detail = next((l for l in r.stdout.splitlines() if l.startswith("  build=")), "")
         print(f"{p}: exit={r.returncode} {time.time()-t:.0f}s {first} {detail[:300]}", flush=True)
 finally:
-    sh(["git", "-C", "/repo", "checkout", "--", "."])
+    sh(["git", "-C", REPO, "checkout", "--", "."])
